@@ -34,6 +34,18 @@ CLAIMED["C05"] = {
     "assumptions": ["state operations are atomic at the lisp level (set, set!, defun, assoc!, dissoc!, append!, export)", "FunCall entry points are only applied to lisp-defined functions; profiler-hook panics are not injected under direct FunCall"],
 }
 
+CLAIMED["C06"] = {
+    "engine": "conditions",
+    "level": "exploration",
+    "technique": "deterministic simulation: seeded programs over a restricted condition-system grammar with host errors, host panics and nil returns injected at cooperative fault points in bodies, handler expressions and handlers; compared with an executable reference model, rethrow checked by object identity",
+    "text": "Programs over handler-bind / ignore-errors / rethrow / error nested with let, if, list, funcall, load-string, dotimes and a macro, with up to three armed fault points (error with chosen condition and data, host panic, nil return) at PRNG-chosen dynamic hits. The real interpreter's value or (condition, data, host-panic flag), its probe trace, the condition visible to each handler and the identity, data and stack of a rethrown error are compared with a 300-line reference model written from docs/lang.md. Seeded sampling of programs and fault plans; the model, not a table of expected outputs, is the oracle.",
+    "note": "Trusted: the reference model (sim/e3_conditions.go) as a faithful reading of docs/lang.md; message texts produced by the interpreter itself (unbound symbol, arity, recovered-panic text) are wildcards, only their condition name and panic flag are compared.",
+    "design_ref": "4/C06",
+    "rule": "case = program from the restricted grammar + fault plan (<= 3 armed fault points); distinct_nontrivial counts distinct (probe trace, outcome, snapshot count) hashes among cases in which an error was raised or a fault fired.",
+    "real": REAL, "stubs": STUBS,
+    "assumptions": ["the restricted grammar covers the constructs named in the property; handlers are lambdas, a named function, a faulting expression or a non-function"],
+}
+
 NOT_APPLICABLE = {
     "C01": "pure function of the program text: no schedule, clock, fault or history in the statement; needs a definitional interpreter (differential testing), which is a different technique",
     "C02": "relation between two fault-free deterministic executions under two static configurations plus a height bound that is a function of the program; nothing for a simulator to schedule or inject (the TRO knob is still randomised inside C04-C06)",
@@ -49,7 +61,7 @@ NOT_APPLICABLE = {
 }
 
 PENDING = {pid: "a simulation target (see DESIGN.md section 3) whose check is not built yet at this commit; not claimed until it runs clean on the unchanged tree"
-           for pid in ["C06", "C08", "C09", "C10", "C11", "C15", "C20"]}
+           for pid in [ "C08", "C09", "C10", "C11", "C15", "C20"]}
 
 
 def main():
